@@ -135,6 +135,8 @@ type SimDA struct {
 	chunkIdx     map[uint64]int
 	// AutoAdvance: with no script entry, every accepted submit closes the height.
 	AutoAdvance bool
+	// Outage: with no script entry, every submission fails with a generic error (the DA node is unavailable).
+	Outage bool
 	// MaxBlobBytes > 0 models a DA with a total-size limit: blobs beyond it are not taken (prefix).
 	MaxBlobBytes uint64
 	// EmptyStyle: how an existing but empty height is reported: 0 = empty id list, 1 = ErrBlobNotFound, 2 = nil result
@@ -331,6 +333,9 @@ func (d *SimDA) submit(ctx context.Context, by string, epoch int, blobs [][]byte
 		}
 	}
 	out := SubmitOutcome{Kind: SubAccept, Advance: d.AutoAdvance}
+	if d.Outage {
+		out = SubmitOutcome{Kind: SubGeneric}
+	}
 	if len(d.SubmitScript) > 0 {
 		out = d.SubmitScript[0]
 		d.SubmitScript = d.SubmitScript[1:]
